@@ -211,7 +211,7 @@ def sequential(ctx, r, idx):
 			v = r.choice((0, 1))
 			b.cmd(s, "SETFORMAT %d" % v)
 			hist.append("SETFORMAT %s %d" % (b.models[s].name, v))
-		ctx.seen(hash((idx, step)))
+		ctx.seen(hash((ctx.shard[0], idx, step)))
 	# drain: whatever is still queued must come out in its own frame
 	for s in rig.senders:
 		if not b.models[s].running:
@@ -252,6 +252,9 @@ def make_sched(ctx, gran):
 	for m in sc.missing:
 		ctx.count("watch_point_missing:%s" % m)
 	return sc
+
+
+RUN_TIMEOUT = [30.0]     # wall-clock watchdog per controlled run (a real deadlock hangs every time)
 
 
 SCENARIOS = ("arrival-own-frame", "arrival-next-frame", "arrival-stale", "poweroff", "poweron")
@@ -296,7 +299,7 @@ def concurrent_case(ctx, sc, scenario, start, switches, seed):
 		op = lambda: trx.ctrl_if.handle_rx()
 	rig.emitted()
 	rig.log.take()
-	info = sc.run(op, lambda: b.tick(T), start, switches)
+	info = sc.run(op, lambda: b.tick(T), start, switches, timeout = RUN_TIMEOUT[0])
 	if info["hung"]:
 		return "deadlock: the two threads block each other", info
 	for i, e in enumerate(info["errors"]):
@@ -407,6 +410,11 @@ def concurrent(ctx, r, gran):
 				plans.append((r.randrange(2), sorted(r.sample(range(1, n + 4), min(k, n + 2)))))
 			for (start, sw) in plans:
 				err, info = concurrent_case(ctx, sc, scenario, start, sw, 1)
+				if err and err.startswith("deadlock"):
+					# a loaded machine must not look like a deadlock: repeat once with a long watchdog
+					RUN_TIMEOUT[0] = 300.0
+					err, info = concurrent_case(ctx, sc, scenario, start, sw, 1)
+					RUN_TIMEOUT[0] = 30.0
 				ctx.count("schedules_run")
 				key = (scenario, start, tuple(info["trace"]) if info else None)
 				distinct.add(key)
